@@ -48,37 +48,80 @@ fn decode_with<T: core::borrow::Borrow<[u8]>>(r: &mut impl Reader<T>, c: &Value)
     (msg_result_to_json(&res), json!(r.len()))
 }
 
-fn op_decode(c: &Value, ev: &mut Map<String, Value>) -> Result<(), String> {
-    let input = json_bytes(&c["in"])?;
+/// run `f` with each requested reader implementation over `input`.
+/// rdr = "slice" | "mon" | "deque": one run, result fields go straight into the event;
+/// rdr = "all": the three readers in turn, results as the list `outs` (C02: every conforming
+/// reader gives the same result).
+fn with_readers(
+    c: &Value,
+    ev: &mut Map<String, Value>,
+    input: &[u8],
+    f: &dyn Fn(&str, &[u8]) -> (Result<(Value, Value), Value>, Option<Value>),
+) -> Result<(), String> {
     let rdr = c["rdr"].as_str().unwrap_or("slice");
-    let out = match rdr {
-        "slice" => guarded(|| {
-            let mut r = SliceReader::from(&input[..]);
-            decode_with(&mut r, c)
-        }),
-        "deque" => guarded(|| {
-            let mut r = DequeReader::new(&input);
-            decode_with(&mut r, c)
-        }),
-        "mon" => {
-            let (mut r, log) = MonReader::new(input.clone());
-            let o = guarded(|| decode_with(&mut r, c));
-            ev.insert("calls".into(), Value::Array(std::mem::take(&mut log.borrow_mut().calls)));
-            o
+    let pack = |name: &str, o: Result<(Value, Value), Value>, calls: Option<Value>| -> Map<String, Value> {
+        let mut m = Map::new();
+        m.insert("rdr".into(), json!(name));
+        match o {
+            Ok((o, rem)) => {
+                m.insert("out".into(), o);
+                m.insert("rem".into(), rem);
+            }
+            Err(p) => {
+                m.insert("out".into(), p);
+                m.insert("rem".into(), json!(0));
+            }
+        }
+        if let Some(cl) = calls {
+            m.insert("calls".into(), cl);
+        }
+        m
+    };
+    match rdr {
+        "slice" | "mon" | "deque" => {
+            let (o, calls) = f(rdr, input);
+            for (k, v) in pack(rdr, o, calls) {
+                ev.insert(k, v);
+            }
+        }
+        "all" => {
+            let mut outs = Vec::new();
+            for name in ["slice", "mon", "deque"] {
+                let (o, calls) = f(name, input);
+                outs.push(Value::Object(pack(name, o, calls)));
+            }
+            ev.insert("outs".into(), Value::Array(outs));
         }
         other => return Err(format!("unknown reader {other}")),
-    };
-    match out {
-        Ok((o, rem)) => {
-            ev.insert("out".into(), o);
-            ev.insert("rem".into(), rem);
-        }
-        Err(p) => {
-            ev.insert("out".into(), p);
-            ev.insert("rem".into(), json!(0));
-        }
     }
     Ok(())
+}
+
+/// generic over the reader: run `g` on a reader of the named implementation
+macro_rules! on_reader {
+    ($name:expr, $input:expr, $g:expr) => {{
+        match $name {
+            "mon" => {
+                let (mut r, log) = MonReader::new($input.to_vec());
+                let o = guarded(|| $g(&mut r));
+                let calls = Value::Array(std::mem::take(&mut log.borrow_mut().calls));
+                (o, Some(calls))
+            }
+            "deque" => {
+                let mut r = DequeReader::new($input);
+                (guarded(|| $g(&mut r)), None)
+            }
+            _ => {
+                let mut r = SliceReader::from($input);
+                (guarded(|| $g(&mut r)), None)
+            }
+        }
+    }};
+}
+
+fn op_decode(c: &Value, ev: &mut Map<String, Value>) -> Result<(), String> {
+    let input = json_bytes(&c["in"])?;
+    with_readers(c, ev, &input, &|name, input| on_reader!(name, input, |r| decode_with(r, c)))
 }
 
 fn avps_with<T: core::borrow::Borrow<[u8]>>(r: &mut impl Reader<T>) -> (Value, Value) {
@@ -88,35 +131,7 @@ fn avps_with<T: core::borrow::Borrow<[u8]>>(r: &mut impl Reader<T>) -> (Value, V
 
 fn op_decode_avps(c: &Value, ev: &mut Map<String, Value>) -> Result<(), String> {
     let input = json_bytes(&c["in"])?;
-    let rdr = c["rdr"].as_str().unwrap_or("slice");
-    let out = match rdr {
-        "slice" => guarded(|| {
-            let mut r = SliceReader::from(&input[..]);
-            avps_with(&mut r)
-        }),
-        "deque" => guarded(|| {
-            let mut r = DequeReader::new(&input);
-            avps_with(&mut r)
-        }),
-        "mon" => {
-            let (mut r, log) = MonReader::new(input.clone());
-            let o = guarded(|| avps_with(&mut r));
-            ev.insert("calls".into(), Value::Array(std::mem::take(&mut log.borrow_mut().calls)));
-            o
-        }
-        other => return Err(format!("unknown reader {other}")),
-    };
-    match out {
-        Ok((o, rem)) => {
-            ev.insert("out".into(), o);
-            ev.insert("rem".into(), rem);
-        }
-        Err(p) => {
-            ev.insert("out".into(), p);
-            ev.insert("rem".into(), json!(0));
-        }
-    }
-    Ok(())
+    with_readers(c, ev, &input, &|name, input| on_reader!(name, input, |r| avps_with(r)))
 }
 
 fn payload_with<T: core::borrow::Borrow<[u8]>>(t: u16, r: &mut impl Reader<T>) -> (Value, Value) {
@@ -130,35 +145,7 @@ fn payload_with<T: core::borrow::Borrow<[u8]>>(t: u16, r: &mut impl Reader<T>) -
 fn op_decode_payload(c: &Value, ev: &mut Map<String, Value>) -> Result<(), String> {
     let input = json_bytes(&c["in"])?;
     let t = json_u16(&c["t"])?;
-    let rdr = c["rdr"].as_str().unwrap_or("slice");
-    let out = match rdr {
-        "slice" => guarded(|| {
-            let mut r = SliceReader::from(&input[..]);
-            payload_with(t, &mut r)
-        }),
-        "deque" => guarded(|| {
-            let mut r = DequeReader::new(&input);
-            payload_with(t, &mut r)
-        }),
-        "mon" => {
-            let (mut r, log) = MonReader::new(input.clone());
-            let o = guarded(|| payload_with(t, &mut r));
-            ev.insert("calls".into(), Value::Array(std::mem::take(&mut log.borrow_mut().calls)));
-            o
-        }
-        other => return Err(format!("unknown reader {other}")),
-    };
-    match out {
-        Ok((o, rem)) => {
-            ev.insert("out".into(), o);
-            ev.insert("rem".into(), rem);
-        }
-        Err(p) => {
-            ev.insert("out".into(), p);
-            ev.insert("rem".into(), json!(0));
-        }
-    }
-    Ok(())
+    with_readers(c, ev, &input, &|name, input| on_reader!(name, input, |r| payload_with(t, r)))
 }
 
 /// messages packed back to back in one buffer, decoded one after another from ONE reader
